@@ -118,7 +118,7 @@ def ocaml_driver():
         raise RuntimeError("extraction failed:\n" + out[-4000:])
     exe = os.path.join(BUILD, "ocaml", "driver")
     os.makedirs(os.path.dirname(exe), exist_ok=True)
-    srcs = ["model.mli", "model.ml", "glue.ml", "driver_ext.ml", "driver.ml"]
+    srcs = ["model.mli", "model.ml", "glue.ml", "driver_proto.ml", "driver_ext.ml", "driver.ml"]
     for f in ("model.ml", "model.mli"):
         shutil.copy(os.path.join(COQ, f), os.path.join(BUILD, "ocaml", f))
     for f in srcs[2:]:
